@@ -89,6 +89,39 @@ ALSO3 = {
            "points are named by (effect, situation the call started in).",
 }
 
+ALSO4 = {
+    "C02": "with balanced sampling the part list is built from the configured parts only; the name of a bulk helper is formed by "
+           "prefix removal (lstrip strips characters).",
+    "C04": "a main loop that takes its indices in chunks from one iter(self.main_sampler) per epoch is reported once as a "
+           "construction the per-index rules do not decide; set_epoch before that iterator is taken is still decided.",
+    "C05": "several spellings of a pass in exclusive branches are each judged; a pass emitted as one batch (flag at the last "
+           "position only) stands behind len(config.sampler) <= config.batch_size or self.batch_size.",
+    "C06": "whatever __init__ stores besides the checkpoint is computed, along every def-use chain and in every case 'checkpoint "
+           "given as epoch / update / sample / not at all', from completed components - never from a start_* parameter that may "
+           "still be None.",
+    "C07": "a hook that walks a filtered view of the member list (constructor-made list, property, local, zip with a repeated "
+           "argument) is judged like a guarded walk over the members: the filter (isinstance / boolean property / hasattr, any "
+           "and / or / not combination) is evaluated per class that needs the hook, properties resolved through that class's MRO; "
+           "constructing a class whose constructor chain calls get_rng_from_global on a __call__ path is reported (behind a "
+           "memo-miss test: undecided).",
+    "C08": "getitem methods store nothing on the instance, including in-place writes through rows handed out from a "
+           "constructor-made table; a predicate property that decides whether a member gets a generator is evaluated per class.",
+    "C09": "filtered views of member lists and per-class guard evaluation as for C07; a loop over a proper slice of the members "
+           "does not cover them.",
+    "C10": "what is gathered through the partner index is read before any write of the mix to the gathered tensor, and the partner "
+           "index is never the destination of a scatter.",
+    "C11": "a label vector written slot by slot into a fresh zero tensor adds the later weight (the two class slots coincide "
+           "whenever the partner has the same class).",
+    "C12": "the arithmetic rank split rank + world * arange(k) with its wrap-around is recognised; the slot is wrapped before it "
+           "is divided by the repeat count.",
+    "C14": "the four amounts of an explicit padding carry the axes (W, H, W, H).",
+    "C16": "labels gathered for all ranks are read through the index table (gather), never written through it (scatter).",
+    "C19": "any other method of a cache class that reads the wrapped dataset does so under a miss test on the cache itself, or on "
+           "a snapshot of its keys that learns every key it loads before the next index.",
+    "C20": "the result of an executor's map / submit in the unzip helpers is consumed, so that worker exceptions reach the "
+           "caller before the end marker is written.",
+}
+
 CLAIMS = {
     "C17": ("dominance / guard rules on the mask-writing paths, polynomial block bounds, dependence of block sizes on the step-seeded generator",
             "Decides: KDDinoMaskCollator generates masks only for masks[i], i < int(batch_size * num_views * mask_prob), out of "
@@ -284,6 +317,9 @@ def main():
         if pid in ALSO3:
             text = text + " Added / re-founded with the third round (clean-ups with one buried mistake, and their repaired twins): " \
                 + ALSO3[pid]
+        if pid in ALSO4:
+            text = text + " Added with the fourth round (optimisation / API-extension commits with one buried mistake, and their " \
+                "repaired twins): " + ALSO4[pid]
         checks.append({
             "property_id": pid,
             "quick_cmd": f"./check {pid} quick",
